@@ -7,7 +7,7 @@ def _dest_nonfresh(toks, res):
 PROPS = {
     "C17": {
         "level": "proof",
-        "lean_targets": ["LP.Props.C17"],
+        "lean_targets": ["LP.Props.C17", "LP.Props.C17Dy", "LP.Props.C17Q"],
         "harnesses": [{"name": "h_scalar", "quick": 120000, "thorough": 1500000}],
         "select": lambda t: t[1] in ("int", "dy", "rat"),
         "nontrivial": lambda t, r: (t[1] == "int" and t[3] != "Z") or _dest_nonfresh(t, r) or any(len(x) > 19 for x in t[3:]),
